@@ -215,6 +215,20 @@ def run(tier, seed, model_ok):
         (['.macro ten', '  .db @0,@1,@2,@3,@4,@5,@6,@7,@8,@9', '.endm', '  ten 1,2,3,4,5,6,7,8,9,10'], ['', '', '', '  .db 1,2,3,4,5,6,7,8,9,10']),
         (['.macro a', '  nop', '  .dseg', 'v: .byte 1', '  .cseg', '  ret', '.endm', '  a', '  .dw v'], ['', '', '', '', '', '', '', '  nop\n  .dseg\nv: .byte 1\n  .cseg\n  ret', '  .dw v']),
     ]
+    fixed += [
+        # a body that begins with .org on a parameter: the expansion lands where the .org says
+        (['.macro vec', '.org @0', '  rjmp @1', '.endm', '  nop', '  vec 0x10, 5', '  vec 0x20, 7', '  ret'], ['', '', '', '', '  nop', '.org 0x10\n  rjmp 5', '.org 0x20\n  rjmp 7', '  ret']),
+        (['.macro vec', '.org @0', '  rjmp @1', '.endm', '.macro two', '  vec @0 + 2, 3', '.endm', '  nop', '  two 0x10', '  ret'], ['', '', '', '', '', '', '', '  nop', '.org (0x10) + 2\n  rjmp 3', '  ret']),
+        (['.macro tab', '  nop', '.org @0', '  .dw @0', '.endm', '  tab 8', '  tab 0x18'], ['', '', '', '', '', '  nop\n.org 8\n  .dw 8', '  nop\n.org 0x18\n  .dw 0x18']),
+        # identifiers pass through as written: .define flags and device names are case-sensitive
+        (['.define FLAG', '.macro t', '.ifdef @0', '  .dw 1', '.else', '  .dw 2', '.endif', '.endm', '  t FLAG', '  t flag', '  t Flag'], ['.define FLAG', '', '', '', '', '', '', '', '  .dw 1', '  .dw 2', '  .dw 2']),
+        (['.macro dev', '.device @0', '.endm', '  dev ATmega48', '  nop'], ['', '', '', '.device ATmega48', '  nop']),
+        (['.equ Mixed = 7', '.macro u', '  .dw @0 + 1', '.endm', '  u Mixed', '  u MIXED'], ['.equ Mixed = 7', '', '', '', '  .dw 8', '  .dw 8']),
+        # a macro defined again: the last definition is the one a call expands
+        # (macros are collected by the parse and expanded afterwards: the LAST definition of a name serves every call)
+        (['.macro emit', '  .dw 1', '.endm', '  emit 5', '.macro emit', '  .dw 2, @0', '.endm', '  emit 9'], ['', '', '', '  .dw 2, 5', '', '', '', '  .dw 2, 9']),
+        (['.macro Emit', '  .dw 1', '.endm', '.macro EMIT', '  .dw 3', '.endm', '.macro w', '  emit', '.endm', '  w'], ['', '', '', '', '', '', '', '', '', '  .dw 3']),
+    ]
     must_fail = [['  nosuchmacro r1, 2'], ['.macro m', '  ldi r16, @1', '.endm', '  m 5'], ['.macro m', '  mov @0, r1', '.endm', '  m']]
     trip = []
     allp = progs + fixed
